@@ -65,10 +65,16 @@ class Interp(seq_detached.DetachedMixin, S.SeqRun):
             (('Student', 'Student', 'Student') if 'Student' in self.schema.by_name else ())
 
     # ------------------------------------------------------------------ modifications
-    def op_new(self, a, b, c, via_collection=None):
+    def op_new(self, a, b, c, via_collection=None, same_pk_as=None):
         order = self.ent_order()
         e = self.schema.by_name[order[a % len(order)]]
         kw = self.scalar_kwargs(e, b, c)
+        if same_pk_as is not None:
+            # a constructor call under a primary key that an object of the session holds (refused by the rule)
+            e = self.schema.by_name[same_pk_as.ent]
+            kw = self.scalar_kwargs(e, b, c)
+            for x in e.pk_attrs:
+                kw[x.name] = same_pk_as.vals.get(x.name)
         rel_mids = {}
         for i, ra in enumerate(e.to_ones()):
             m = S.mix(c, b, 100 + i)
@@ -901,6 +907,23 @@ class Interp(seq_detached.DetachedMixin, S.SeqRun):
                     for o2 in self.view.live(o.ent):
                         if o2.mid != o.mid and o2.vals.get(at.name) is not None:
                             sets_.append((o, at, o2.vals[at.name]))
+        twins = [o for o in self.live_sorted() if o.pk is not None and not self.schema.by_name[o.ent].auto_pk
+                 and not any(x.is_rel for x in self.schema.by_name[o.ent].pk_attrs)]
+        # (where the entity has a unique key besides its primary key the constructor has more to take back)
+        keyed = [o for o in twins if any(x.unique and not x.is_pk for x in self.schema.by_name[o.ent].scalars())
+                 or self.schema.by_name[o.ent].composite_keys]
+        if keyed:
+            twins = keyed
+        if twins and Rng(1, 'fail_probe_twin', a, b, c).chance(0.4 if keyed else 0.1):
+            # a third kind of refused call: the constructor, under a primary key that a held object has
+            r3 = Rng(2, 'fail_probe_twin', a, b, c)
+            mo = twins[r3.below(len(twins))]
+            alive, _t = self.pending_prelude(mo, r3, lean=True) if r3.chance(0.5) else (True, None)
+            if not alive or self.view.objs[mo.mid].deleted:
+                return None
+            self.handle_or_poison(mo.mid)
+            self.probe('fail_probe_constructor_same_pk')
+            return self.op_new(0, r3.below(1000), r3.below(1000), same_pk_as=self.view.objs[mo.mid])
         if not dels and not sets_:
             return None
         use_del = bool(dels) and (not sets_ or r.chance(0.65))
